@@ -14,13 +14,14 @@ for d in seeded/*/; do
   name=$(basename $d)
   prop=${name%%-*}
   checks=$prop; [ -f $d/checks ] && checks=$(cat $d/checks)
-  lines=$(tools/run_seeded.sh $name $checks 2>&1 | grep " tier=")
+  tier=quick; [ -f $d/tier ] && tier=$(cat $d/tier)
+  lines=$(TIER=$tier tools/run_seeded.sh $name $checks 2>&1 | grep " tier=")
   rc=0; echo "$lines" | grep -q " rc=2 " && rc=2; echo "$lines" | grep -q " rc=1 " && rc=1
   t=$(echo "$lines" | sed 's/.* time=\([0-9]*s\) .*/\1/' | tr '\n' '+' | sed 's/+$//')
   sigs=$(echo "$lines" | sed 's/^[^ ]* \([^ ]*\) .*sigs: /\1: /' | tr '\n' ' ')
   summary=$(/venv/bin/python -c "import json;m=json.load(open('$d/meta.json'));print(m.get('summary','').replace('|','/')[:160])")
   needs=$(/venv/bin/python -c "import json;m=json.load(open('$d/meta.json'));print(str(m.get('needs','')).replace('|','/')[:160])")
-  res="MISSED"; [ "$rc" = "1" ] && res="caught ($t)"; [ "$rc" = "2" ] && res="harness problem"
+  res="MISSED"; [ "$rc" = "1" ] && res="caught ($t, $tier tier)"; [ "$rc" = "2" ] && res="harness problem"
   echo "| $name | $prop | $summary | $needs | $res | $sigs |"
 done
 } > $out.tmp
